@@ -458,7 +458,11 @@ class Pass2(CompilePass):
             try:
                 self.__check_function_args(func_node, nargs, arg_types)
             except CompileError as e:
-                error = e
+                # a form with this number of arguments describes the
+                # fault; one with another number does not
+                if error is None or \
+                   error.code == EC.ARGUMENT_COUNT_MISMATCH:
+                    error = e
             else:
                 # all good, at least for one spec!
                 return
